@@ -12,3 +12,4 @@ import NbioVerif.Properties.C16
 #print axioms Deadline.c16_cause_stable
 #print axioms Deadline.c16_due_is_enabled
 #print axioms Deadline.c16_pinned_stale_counterexample
+#print axioms Deadline.c16_connected_ends_dial_timer
